@@ -136,26 +136,32 @@ CHECKS = {
 }
 
 EXTRA = {
-    "C04": " Head, tips and block count of up to 60 chain states obtained earlier in a history are read again after every later arrival.",
-    "C03": " A two-thread lane puts two balance queries on one chain-state object (one held at a source location while the other completes) and repeats them afterwards.",
+    "C04": " Head, tips and block count of up to 60 chain states obtained earlier in a history are read again after every later arrival."
+           " A route lane runs the download-route stories of the relay-path check (blocks announced, requested, arriving unrequested, late, before their parent, again with another body) on a real node with this check's classes of rule-breaking blocks.",
+    "C03": " A two-thread lane puts two balance queries on one chain-state object (one held at a source location while the other completes) and repeats them afterwards."
+           " A route lane runs the download-route stories of the relay-path check (blocks announced, requested, arriving unrequested, late, before their parent, again with another body) on a real node with this check's classes of rule-breaking blocks.",
     "C01": " Candidates refused once are offered again later (verdicts must not depend on history). A node lane delivers candidates "
            "over the wire to a real node, reloads its store by a restart and checks that nothing refused is part of the rebuilt state."
            " A two-thread lane holds one validation at statement boundaries of the validation modules (sys.monitoring) while another thread validates another candidate: verdicts must be the solo verdicts.",
     "C02": " Candidates refused once are offered again later. A node lane delivers candidates over the wire with an emulated miner "
            "acting inside the validation window."
-           " A two-thread lane holds one validation at statement boundaries of the validation modules (sys.monitoring) while another thread validates another candidate: verdicts must be the solo verdicts.",
+           " A two-thread lane holds one validation at statement boundaries of the validation modules (sys.monitoring) while another thread validates another candidate: verdicts must be the solo verdicts."
+           " A route lane runs the download-route stories of the relay-path check (blocks announced, requested, arriving unrequested, late, before their parent, again with another body) on a real node with this check's classes of rule-breaking blocks.",
     "C05": " Candidates refused once are offered again later. The miner front end is driven across retarget-period boundaries with "
            "a ticking clock and every candidate it hands out is judged by the reference and the node's own validation."
            " A two-thread lane holds one validation at statement boundaries of the validation modules (sys.monitoring) while another thread validates another candidate: verdicts must be the solo verdicts."
-           " Some worlds are judged on the chain state a restarted node rebuilds from a block store the code under test created.",
+           " Some worlds are judged on the chain state a restarted node rebuilds from a block store the code under test created."
+           " A route lane runs the download-route stories of the relay-path check (blocks announced, requested, arriving unrequested, late, before their parent, again with another body) on a real node with this check's classes of rule-breaking blocks.",
     "C07": " Every id asked of a Transaction or Block anywhere in the workload is compared with the hash of its canonical encoding "
            "(invariant at a hook). A two-thread lane holds one decode/encode/id computation at statement boundaries of the codec "
            "modules (sys.monitoring) while another thread does the same with another value.",
     "C08": " A thread lane hands blocks to the store while another thread flushes, with a delay injected after the sqlite write. "
            "A large-store lane writes and reloads thousands of blocks on several equal-height branches."
-           " A third of the histories are stamped ahead of the machine's wall clock (2033, near 2^32).",
+           " A third of the histories are stamped ahead of the machine's wall clock (2033, near 2^32)."
+           " A route lane runs the download-route stories of the relay-path check (blocks announced, requested, arriving unrequested, late, before their parent, again with another body) on a real node with this check's classes of rule-breaking blocks.",
     "C06": " A genuine block is decoded before each truncated one (the decode result must not depend on earlier decodes)."
-           " A two-thread lane validates altered copies whose nonce was ground until the id is below target again while another thread validates or encodes the genuine block.",
+           " A two-thread lane validates altered copies whose nonce was ground until the id is below target again while another thread validates or encodes the genuine block."
+           " A route lane runs the download-route stories of the relay-path check (blocks announced, requested, arriving unrequested, late, before their parent, again with another body) on a real node with this check's classes of rule-breaking blocks.",
     "C10": " A fifth of the runs place all nodes on one host. Plus EVERY choice sequence of length 4 / 6 over the enabled actions "
            "(accept, read, write, timer step) of three two-node scenarios, executed from scratch and then drained."
            " A third of the runs give every node its own clock offset (seconds to hours); a late-learner scenario (line, both ends behind NAT); a quarter of the runs use send buffers that take a few hundred bytes per writable event.",
@@ -165,27 +171,33 @@ EXTRA = {
            "the hostile streams."
            " Early-block stories: rule-breaking blocks stamped around the future tolerance, then the clock moves on and the timers fire.",
     "C09": " Rejected blocks are delivered again later; plus EVERY sequence of 3 (quick) / 5 (thorough) deliveries from an 8-event "
-           "alphabet on a small chain.",
+           "alphabet on a small chain."
+           " Download-route stories: child before its parent's answer, unrequested block while a request is open, announced then sent unrequested, late answer after the child, answers + lower relayed block + refusal, same header over another body, altered copy while holding answers.",
     "C11": " A socket lane drives the full path below the selector with harness-chosen read sizes; an auxiliary lane runs the "
            "repository's integration tests on real TCP with a per-connection order monitor. A many-frames lane sends one large frame "
            "followed by 1100-1500 minimal ones under four arrival schedules with the transport handing over as much as the node asks for."
-           " In half of the socket-lane cases the node's timers fire between reads with a standing, ticking or jumping clock.",
+           " In half of the socket-lane cases the node's timers fire between reads with a standing, ticking or jumping clock."
+           " The message handed to the node is re-encoded at delivery and compared with the frame's bytes; streams announcing and delivering recorded real blocks are repeated on six connections of one node.",
     "C12": " Transactions keep entering the pool while the nonce loop runs. Between found blocks the head is moved by peers: a block "
            "stamped ahead of the clock between two work requests, a sibling between request and hit, and a longer branch that "
            "reorganises the node's own block away while the pool holds spends of the abandoned branch."
-           " A third of the set-ups use send buffers that take 300 / 4096 bytes per writable event (EAGAIN after a send cut short).",
+           " A third of the set-ups use send buffers that take 300 / 4096 bytes per writable event (EAGAIN after a send cut short)."
+           " Candidates are the blocks the real found-block handler builds (constructor watched, handler stopped before adoption); another miner process asks for work between request and hit; the head may be an unvalidated download answer.",
     "C13": " Refused transactions are submitted again later; plus EVERY sequence of 4 / 5 operations from a 9-operation alphabet on "
            "a small forked world."
            " In a quarter of the submissions the debugging copy of a refused transaction cannot be written (ENOSPC).",
     "C14": " Plus EVERY sequence of 3 / 4 requests from a 19-request alphabet on a small wallet."
            " 30 % of the requests are served while another thread hands out (and gives back) a key on the same wallet object, held at one source location of the wallet module.",
     "C15": " After every crash point the process is restarted through the scripts' own wallet open (the file is judged again), "
-           "then a completed (shorter) save must produce exactly the saved wallet.",
+           "then a completed (shorter) save must produce exactly the saved wallet."
+           " Balances are asked after every block of a growing chain, also while a competing branch overtakes the head.",
     "C16": " A history lane asks heights in random order with repeats (the schedule must be a function of the height alone)."
-           " A two-thread shard asks the schedule from two threads at once, every trial from the module state of a fresh process, and re-reads the whole schedule afterwards.",
+           " A two-thread shard asks the schedule from two threads at once, every trial from the module state of a fresh process, and re-reads the whole schedule afterwards."
+           " A route lane runs the download-route stories of the relay-path check (blocks announced, requested, arriving unrequested, late, before their parent, again with another body) on a real node with this check's classes of rule-breaking blocks.",
     "C17": " A consensus lane computes header commitments of edited transaction lists back to back through "
            "consensus.calc_merkle_root_hash. A two-thread lane pre-empts one computation at every statement boundary / function "
-           "entry of the commitment code (sys.monitoring) while another thread computes commitment, tree and proof of another list.",
+           "entry of the commitment code (sys.monitoring) while another thread computes commitment, tree and proof of another list."
+           " A miner-route lane (C12's set-up) requires every found block to carry the commitment of its own transaction list.",
     "C18": " The recorded blocks are also validated while a competing block is the head."
            " Pairs of recorded blocks are validated in two threads at once (true scrypt values from a table) and again afterwards.",
     "C19": " EVERY sequence of 5 / 6 events from an 8-event alphabet on one address with a clock that moves in seconds; auxiliary "
